@@ -369,12 +369,23 @@ func scenarioFor(to threadOps) *sched.Scenario {
 					}
 				}})
 			}
-			return threads, func() {}
+			return threads, func() {
+				// every configuration contains a Close: once all explored calls have
+				// returned, further calls must return too (closed error or nil)
+				if len(e.Unfinished) == 0 {
+					e.Guarded("UncacheCid after the explored calls", func() { rc.UncacheCid(c1) })
+					e.Guarded("Direct after the explored calls", func() { doOp(rc, opDirect2) })
+					e.Guarded("Close after the explored calls", func() { rc.Close() })
+				}
+			}
 		},
 		Check: func(e *sched.Exec) []sched.Finding {
 			var out []sched.Finding
 			for _, p := range e.Panics {
 				out = append(out, sched.Finding{Sig: "threads:panic", Msg: p})
+			}
+			if len(e.CleanupHung) > 0 {
+				out = append(out, sched.Finding{Sig: "threads:later-call-never-returns", Msg: fmt.Sprintf("after all explored calls had returned, these further calls never return: %v", e.CleanupHung)})
 			}
 			// once a Close has been invoked every call must return; before that a
 			// Direct (queue full) or a Next (queue empty) may legitimately wait
@@ -557,8 +568,13 @@ func pubsubScenario(extra []string) *sched.Scenario {
 				// (a goroutine waiting for a mutex is not "durably blocked" for the
 				// bubble: the execution would hang instead of being reported)
 				if len(e.Unfinished) == 0 {
-					rc.Close()
-					topic.Close()
+					// "no return path leaves the receiver unusable for the calls that
+					// follow": one more of each call, each of which must return
+					e.Guarded("UncacheCid after the explored calls", func() { rc.UncacheCid(c2) })
+					e.Guarded("Direct after the explored calls", func() { rc.Direct(context.Background(), c2, peer.AddrInfo{ID: from.ID}) })
+					if e.Guarded("Close after the explored calls", func() { rc.Close() }) {
+						topic.Close()
+					}
 				}
 				psCancel()
 				h.Close()
@@ -580,6 +596,9 @@ func pubsubScenario(extra []string) *sched.Scenario {
 				sort.Strings(l)
 				out = append(out, sched.Finding{Sig: "pubsub:call-never-returns", Msg: fmt.Sprintf("threads %v never finish although Close was among the calls (deadlocked %v)", l, e.Deadlocked)})
 				return out
+			}
+			if len(e.CleanupHung) > 0 {
+				out = append(out, sched.Finding{Sig: "pubsub:later-call-never-returns", Msg: fmt.Sprintf("after all explored calls had returned, these further calls never return: %v", e.CleanupHung)})
 			}
 			for _, o := range e.Obs() {
 				if strings.Contains(o, "ret Next = ") && !strings.HasSuffix(o, "= c1") && !strings.HasSuffix(o, "= ErrClosed") {
